@@ -574,10 +574,66 @@ def run_upgma(spec, acc):
             acc.sample({"dendrogram": tree, "node heights": heights, "tips": NAMES[:n]}, f"upgma{n}")
 
 
+# ----------------------------------------------------------------------------- the conversion apps of app/dist.py
+APPROX_P = [0.0, 0.1, 0.25, 0.5]
+
+
+def run_approx(spec, acc):
+    """approx_jc69 / approx_pdist on every matrix over three names with entries from a small lattice; the same input matrix
+    is converted twice (4 states, then 20): the closed form each time, and the input is the caller's and stays as it was"""
+    from cogent3 import get_app
+    from cogent3.app.dist import JACCARD_PDIST_POLY_COEFFS
+    from cogent3.evolve.fast_distance import DistanceMatrix
+
+    names = ["a", "b", "c"]
+    pairs = [(0, 1), (0, 2), (1, 2)]
+    for vals in itertools.product(APPROX_P, repeat=3):
+        d = {}
+        for (i, j), v in zip(pairs, vals):
+            d[(names[i], names[j])] = d[(names[j], names[i])] = v
+        for order in (("jc4", "jc20"), ("jc20", "jc4"), ("pdist", "pdist"), ("pdist", "jc4")):
+            case = {"part": "approx", "values": list(vals), "order": list(order)}
+            acc.case(case, nontrivial=any(vals))
+            dm = DistanceMatrix(dict(d))
+            for step, which in enumerate(order):
+                if which == "pdist":
+                    app = get_app("approx_pdist")
+                    f = lambda x: sum(float(c) * x ** k for k, c in enumerate(reversed(list(JACCARD_PDIST_POLY_COEFFS))))  # noqa: E731
+                else:
+                    ns = 4 if which == "jc4" else 20
+                    app = get_app("approx_jc69", num_states=ns)
+                    f = lambda x, ns=ns: -(ns - 1) / ns * math.log(1 - ns / (ns - 1) * x)  # noqa: E731
+                try:
+                    got = app(dm)
+                    garr = got.array
+                    gn = list(got.names)
+                except Exception as e:  # noqa: BLE001
+                    acc.fail(f"{which} conversion app: raised {type(e).__name__}", case, {"error": str(e)[:200]})
+                    break
+                acc.outcome(("approx", which, step))
+                bad = []
+                for (i, j), v in zip(pairs, vals):
+                    for a, b2 in ((i, j), (j, i)):
+                        g = float(garr[gn.index(names[a]), gn.index(names[b2])])
+                        if abs(g - f(v)) > 1e-12 * max(1.0, abs(f(v))):
+                            bad.append([names[a], names[b2], g, f(v)])
+                if any(float(garr[k, k]) != 0.0 for k in range(3)):
+                    bad.append(["diagonal"])
+                if bad:
+                    acc.fail(f"{which} conversion app: result differs from the closed form of the matrix it was given"
+                             + (" [second conversion of the same matrix]" if step else ""), case, {"differences": bad[:3]})
+                    break
+                now = {(names[i], names[j]): float(dm.array[list(dm.names).index(names[i]), list(dm.names).index(names[j])]) for i in range(3) for j in range(3) if i != j}
+                if now != {k: float(v) for k, v in d.items()}:
+                    acc.fail(f"{which} conversion app: the matrix it was given is changed", case, {"now": [[*k, v] for k, v in now.items()][:3]})
+                    break
+    acc.sample({"approx apps": ["approx_jc69", "approx_pdist"], "lattice": APPROX_P, "names": names}, "approx")
+
+
 # ----------------------------------------------------------------------------- shards
 def shards(tier, seed):
     b = bounds(tier)
-    out = []
+    out = [{"part": "approx"}]
     for n in range(0, b["matrix_total"] + 1):
         of = max(1, min(128, D.n_count_matrices(n) * (50 if n <= b["matrix_total_variants"] else 7) // 1500))
         for base in (0, 1):
@@ -620,7 +676,7 @@ def shards(tier, seed):
 
 def run_shard(spec, acc):
     {"est": run_est, "order": run_order, "noncanon": run_noncanon, "three": run_three, "protein": run_protein,
-     "nj": run_nj, "njcontrast": run_nj_contrast, "upgma": run_upgma}[spec["part"]](spec, acc)
+     "approx": run_approx, "nj": run_nj, "njcontrast": run_nj_contrast, "upgma": run_upgma}[spec["part"]](spec, acc)
 
 
 def _tuplify(x):
@@ -636,6 +692,8 @@ def replay(case):
         nj_case(case["n"], _tuplify(case["tree"]), tuple(case["lengths"]), (case["form"],), acc)
     elif part == "upgma":
         upgma_case(case["n"], _tuplify(case["tree"]), _tuplify(case["heights"]), (case["form"],), acc)
+    elif part == "approx":
+        run_approx({}, acc)
     else:
         ests = (case["est"],) if "est" in case else NUC_ESTS
         entries = ENTRIES_MAIN
